@@ -8,7 +8,7 @@ SIGHELP = ['fn labelled(label1 arg1: Int, label2 arg2: String) { arg2 }\nfn main
            'fn labelled(label1 arg1: Int, label2 arg2: String) { arg2 }\nfn main() { labelled(1, "a", label1: 2) }\n',
            'fn f(a a: Int, b b: Int, c c: Int) { a }\nfn main() { f(c: 1, b: 2, a: 3) }\n']
 CYCLIC = ['fn main() { let f = fn(x) { x(x) } f(f) }\n', 'fn twice(x) { x(x) x(x) }\n', 'fn main() { let l = [l] l }\n', 'fn f(x) { [x, [x]] }\n',
-          'fn g(x) { #(x, g) }\nfn h() { g(g) }\n']
+          'fn g(x) { #(x, g) }\nfn h() { g(g) }\n', 'pub fn a(x) { x + 1 }\nconst a = 2\n', 'fn a(x) { x }\nfn a(y) { y }\nfn b() { a(1) }\n']
 
 
 def main(tier, seed):
